@@ -1316,4 +1316,137 @@ theorem components_closed_of_fixpoint (p : WMol) (hw : p.wf = true) (hfix : comp
   · rw [List.mem_filter, List.mem_range, hlen]; exact ⟨ha, by simp⟩
   · rw [List.mem_filter, List.mem_range, hlen]; exact ⟨hb, by rw [heq]; simp⟩
 
+/-! ### applicability -/
+
+theorem mapped_of {f : List Nat} {m : WMol} {i x : Nat} (h : f[i]? = some x) (hx : x < m.natoms) : mapped f m i = .ok x := by
+  simp [mapped, h, hx, pure, Except.pure]
+
+theorem addBond_succeeds {m : WMol} {x y : Nat} (k : BK) (hne : x ≠ y) (hn : m.kindBetween x y = none) :
+    ∃ m', m.addBond x y k = .ok m' := by
+  have h1 : (x == y) = false := by simpa using hne
+  have h2 : (m.bondBetween x y).isSome = false := by
+    cases hb : (m.bondBetween x y).isSome with
+    | false => rfl
+    | true => exact absurd hn ((bondBetween_isSome_iff m x y).1 hb)
+  unfold WMol.addBond
+  simp only [h1, h2, Bool.false_eq_true, if_false]
+  exact ⟨_, rfl⟩
+
+theorem replace_succeeds {m : WMol} (hw : m.wf = true) {x y : Nat} {k : BK} (k' : BK) (hk : m.kindBetween x y = some k) :
+    ∃ m', (m.removeBond x y).addBond x y k' = .ok m' := by
+  have s := step_remove hw hk
+  exact addBond_succeeds k' s.ne s.after
+
+theorem atom_getElem?_of_lt {m : WMol} {x : Nat} (hx : x < m.natoms) : ∃ a, m.atoms[x]? = some a :=
+  ⟨m.atoms[x]'hx, List.getElem?_eq_getElem hx⟩
+
+theorem lt_of_atom {m : WMol} {x : Nat} {a : WAtom} (h : m.atoms[x]? = some a) : x < m.natoms := by
+  rcases List.getElem?_eq_some_iff.1 h with ⟨h', _⟩; exact h'
+
+/-- an edit is applied successfully exactly when its precondition holds -/
+theorem applyEdit_ok_iff (f : List Nat) (m : WMol) (e : Edit) (hw : m.wf = true) :
+    (∃ m', applyEdit f m e = .ok m') ↔ e.Pre f m := by
+  constructor
+  · rintro ⟨m', h⟩
+    have sp := applyEdit_spec f m m' e hw h
+    cases e with
+    | bondForm i j k =>
+      simp only [applyEdit] at h
+      obtain ⟨x, hx, h1⟩ := bind_ok h
+      obtain ⟨y, hy, h2⟩ := bind_ok h1
+      obtain ⟨hfx, hxn⟩ := mapped_ok hx
+      obtain ⟨hfy, hyn⟩ := mapped_ok hy
+      obtain ⟨hne, hnone, _⟩ := addBond_ok h2
+      exact ⟨x, y, hfx, hfy, hxn, hyn, hne, hnone⟩
+    | bondBreak i j old =>
+      simp only [applyEdit] at h
+      obtain ⟨x, hx, h1⟩ := bind_ok h
+      obtain ⟨y, hy, h2⟩ := bind_ok h1
+      obtain ⟨hfx, hxn⟩ := mapped_ok hx
+      obtain ⟨hfy, hyn⟩ := mapped_ok hy
+      obtain ⟨x', y', hfx', hfy', _, hk, _⟩ := sp.effect
+      rw [hfx] at hfx'; rw [hfy] at hfy'
+      cases hfx'; cases hfy'
+      exact ⟨x, y, hfx, hfy, hxn, hyn, hk⟩
+    | bondModify i j new old =>
+      simp only [applyEdit] at h
+      obtain ⟨x, hx, h1⟩ := bind_ok h
+      obtain ⟨y, hy, h2⟩ := bind_ok h1
+      obtain ⟨hfx, hxn⟩ := mapped_ok hx
+      obtain ⟨hfy, hyn⟩ := mapped_ok hy
+      obtain ⟨x', y', hfx', hfy', _, hk, _⟩ := sp.effect
+      rw [hfx] at hfx'; rw [hfy] at hfy'
+      cases hfx'; cases hfy'
+      exact ⟨x, y, hfx, hfy, hxn, hyn, hk⟩
+    | bondIncrease i j =>
+      simp only [applyEdit] at h
+      obtain ⟨x, hx, h1⟩ := bind_ok h
+      obtain ⟨y, hy, h2⟩ := bind_ok h1
+      obtain ⟨hfx, hxn⟩ := mapped_ok hx
+      obtain ⟨hfy, hyn⟩ := mapped_ok hy
+      obtain ⟨x', y', k, k', hfx', hfy', _, hk, hl, _⟩ := sp.effect
+      rw [hfx] at hfx'; rw [hfy] at hfy'
+      cases hfx'; cases hfy'
+      exact ⟨x, y, k, k', hfx, hfy, hxn, hyn, hk, hl⟩
+    | bondDecrease i j =>
+      simp only [applyEdit] at h
+      obtain ⟨x, hx, h1⟩ := bind_ok h
+      obtain ⟨y, hy, h2⟩ := bind_ok h1
+      obtain ⟨hfx, hxn⟩ := mapped_ok hx
+      obtain ⟨hfy, hyn⟩ := mapped_ok hy
+      obtain ⟨x', y', k, r, hfx', hfy', _, hk, hl, _⟩ := sp.effect
+      rw [hfx] at hfx'; rw [hfy] at hfy'
+      cases hfx'; cases hfy'
+      exact ⟨x, y, k, r, hfx, hfy, hxn, hyn, hk, hl⟩
+    | radicalModify i r old => obtain ⟨x, a, hi, ha, ho, _⟩ := sp.effect; exact ⟨x, a, hi, ha, ho⟩
+    | radicalIncrease i => obtain ⟨x, a, hi, ha, _⟩ := sp.effect; exact ⟨x, hi, lt_of_atom ha⟩
+    | radicalDecrease i => obtain ⟨x, a, hi, ha, hp, _⟩ := sp.effect; exact ⟨x, a, hi, ha, hp⟩
+    | chargeIncrease i => obtain ⟨x, a, hi, ha, _⟩ := sp.effect; exact ⟨x, hi, lt_of_atom ha⟩
+    | chargeDecrease i => obtain ⟨x, a, hi, ha, _⟩ := sp.effect; exact ⟨x, hi, lt_of_atom ha⟩
+    | atomTypeModify i r c => obtain ⟨x, a, hi, ha, _⟩ := sp.effect; exact ⟨x, hi, lt_of_atom ha⟩
+  · intro hp
+    cases e with
+    | bondForm i j k =>
+      obtain ⟨x, y, hi, hj, hx, hy, hne, hn⟩ := hp
+      obtain ⟨m', hm'⟩ := addBond_succeeds k hne hn
+      exact ⟨m', by simp only [applyEdit, mapped_of hi hx, mapped_of hj hy, bind, Except.bind]; exact hm'⟩
+    | bondBreak i j old =>
+      obtain ⟨x, y, hi, hj, hx, hy, hk⟩ := hp
+      exact ⟨m.removeBond x y, by simp [applyEdit, mapped_of hi hx, mapped_of hj hy, bind, Except.bind, hk, pure, Except.pure]⟩
+    | bondModify i j new old =>
+      obtain ⟨x, y, hi, hj, hx, hy, hk⟩ := hp
+      obtain ⟨m', hm'⟩ := replace_succeeds hw new hk
+      exact ⟨m', by simp only [applyEdit, mapped_of hi hx, mapped_of hj hy, bind, Except.bind, hk, beq_self_eq_true, if_true]; exact hm'⟩
+    | bondIncrease i j =>
+      obtain ⟨x, y, k, k', hi, hj, hx, hy, hk, hl⟩ := hp
+      obtain ⟨m', hm'⟩ := replace_succeeds hw k' hk
+      exact ⟨m', by simp only [applyEdit, mapped_of hi hx, mapped_of hj hy, bind, Except.bind, hk, hl]; exact hm'⟩
+    | bondDecrease i j =>
+      obtain ⟨x, y, k, r, hi, hj, hx, hy, hk, hl⟩ := hp
+      cases r with
+      | none => exact ⟨m.removeBond x y, by simp [applyEdit, mapped_of hi hx, mapped_of hj hy, bind, Except.bind, hk, hl, pure, Except.pure]⟩
+      | some k' =>
+        obtain ⟨m', hm'⟩ := replace_succeeds hw k' hk
+        exact ⟨m', by simp only [applyEdit, mapped_of hi hx, mapped_of hj hy, bind, Except.bind, hk, hl]; exact hm'⟩
+    | radicalModify i r old =>
+      obtain ⟨x, a, hi, ha, ho⟩ := hp
+      exact ⟨_, by simp [applyEdit, mapped_of hi (lt_of_atom ha), bind, Except.bind, ha, ho, pure, Except.pure]; rfl⟩
+    | radicalIncrease i =>
+      obtain ⟨x, hi, hx⟩ := hp
+      exact ⟨_, by simp only [applyEdit, mapped_of hi hx, bind, Except.bind]; rfl⟩
+    | radicalDecrease i =>
+      obtain ⟨x, a, hi, ha, hpos⟩ := hp
+      have : (a.radicals == 0) = false := by simpa using (Nat.pos_iff_ne_zero.1 hpos)
+      exact ⟨_, by simp only [applyEdit, mapped_of hi (lt_of_atom ha), bind, Except.bind, ha, this, Bool.false_eq_true, if_false]; rfl⟩
+    | chargeIncrease i =>
+      obtain ⟨x, hi, hx⟩ := hp
+      exact ⟨_, by simp only [applyEdit, mapped_of hi hx, bind, Except.bind]; rfl⟩
+    | chargeDecrease i =>
+      obtain ⟨x, hi, hx⟩ := hp
+      exact ⟨_, by simp only [applyEdit, mapped_of hi hx, bind, Except.bind]; rfl⟩
+    | atomTypeModify i r c =>
+      obtain ⟨x, hi, hx⟩ := hp
+      exact ⟨_, by simp only [applyEdit, mapped_of hi hx, bind, Except.bind]; rfl⟩
+
+
 end PGA.Rxn
